@@ -414,7 +414,34 @@ def sess_consts():
           % (ds[0], m.group(1)))
 
 
-ALL = dict(sess_consts=sess_consts, mpmc=mpmc, sched=sched, logger_facts=logger_facts, xml_facts=xml_facts, timer_consts=timer_consts, schema_utest=schema_utest, consts=consts, itoa_table=itoa_table, mon_days=mon_days, tables_utest=tables_utest)
+def encode_ladder():
+    """the digit-count ladder and the preamble size of Message::encode(char**), and the shape of the stack buffer of
+    Message::encode(f8String&) (C03: index model of the encoder)"""
+    s = _src('runtime/message.cpp')
+    m = re.search(r'const\s+size_t\s+hlen\s*\(\s*_ctx\._preamble_sz\s*\+\s*\((.*?)\)\s*\)\s*;', s, re.S)
+    if not m:
+        raise FactError('hlen ladder of Message::encode(char**) not found in runtime/message.cpp')
+    expr = re.sub(r'\s+', ' ', m.group(1)).strip()
+    steps = re.findall(r'msgLen < (\d+) \? (\d+) :', expr)
+    tail = re.fullmatch(r'(?:msgLen < \d+ \? \d+ : )+(\d+)', expr)
+    if not steps or not tail:
+        raise FactError('hlen ladder of Message::encode(char**) has an unexpected shape: %s' % expr)
+    if not re.search(r'char\s*\*moffs\s*\(\s*\*hmsg_store\s*\+\s*HEADER_CALC_OFFSET\s*\)', s) or not re.search(r'char\s*\*hmsg\s*\(\s*moffs\s*-\s*hlen\s*\)', s):
+        raise FactError('Message::encode(char**) no longer writes the body at HEADER_CALC_OFFSET and the preamble at moffs - hlen')
+    if not re.search(r'char\s+output\s*\[\s*FIX8_MAX_MSG_LENGTH\s*\+\s*HEADER_CALC_OFFSET\s*\]', s):
+        raise FactError('Message::encode(f8String&) no longer uses char output[FIX8_MAX_MSG_LENGTH + HEADER_CALC_OFFSET]')
+    h = _src('include/fix8/message.hpp')
+    pm = re.search(r'_preamble_sz\s*\(\s*(\d+)\s*\+\s*_beginStr\.size\(\)\s*\+\s*(\d+)\s*\+\s*(\d+)\s*\)', h)
+    if not pm:
+        raise FactError('_preamble_sz initialiser not found in include/fix8/message.hpp')
+    extra = sum(int(x) for x in pm.groups())
+    _emit('EncodeLadder', '/-- `msgLen < a ? k : …` steps of the `hlen` computation in `Message::encode(char**)` (runtime/message.cpp), in source order -/\n'
+          'def encodeLadder : List (Nat × Nat) := [%s]\n\n/-- the final alternative of the ladder -/\ndef encodeLadderDefault : Nat := %s\n\n'
+          '/-- `_preamble_sz - _beginStr.size()` (include/fix8/message.hpp: `%s + _beginStr.size() + %s + %s`) -/\ndef preambleExtra : Nat := %d\n'
+          % (', '.join('(%s, %s)' % st for st in steps), tail.group(1), pm.group(1), pm.group(2), pm.group(3), extra))
+
+
+ALL = dict(encode_ladder=encode_ladder, sess_consts=sess_consts, mpmc=mpmc, sched=sched, logger_facts=logger_facts, xml_facts=xml_facts, timer_consts=timer_consts, schema_utest=schema_utest, consts=consts, itoa_table=itoa_table, mon_days=mon_days, tables_utest=tables_utest)
 
 
 def generate(names):
